@@ -571,9 +571,9 @@ func main() {
 	// action sequences
 	var seqs []string
 	alpha := "HCWV"
-	maxLen := 2
+	maxLen := 3
 	if cfg.Thorough() {
-		maxLen = 3
+		maxLen = 4
 	}
 	var gen func(p string)
 	gen = func(p string) {
@@ -586,15 +586,22 @@ func main() {
 		}
 	}
 	gen("")
-	if !cfg.Thorough() {
-		seqs = append(seqs, "HCW", "HWV", "WCV", "CWV", "WHW")
-	}
+
 	for _, q := range seqs {
 		for _, end := range []string{"ret", "panic", "stall", "ctxwait"} {
 			sc = append(sc, restScenario(restSpec{Acts: q, End: end, Parent: "none"}))
 		}
 	}
-	for _, q := range []string{"", "W", "HCW", "WV"} {
+	parentSeqs := []string{"", "W", "HCW", "WV", "H", "C", "HW", "CW", "WC", "WH"}
+	if cfg.Thorough() {
+		parentSeqs = nil
+		for _, q := range seqs {
+			if len(q) <= 3 {
+				parentSeqs = append(parentSeqs, q)
+			}
+		}
+	}
+	for _, q := range parentSeqs {
 		for _, end := range []string{"ret", "panic", "stall", "ctxwait"} {
 			for _, p := range []string{"earlier", "later", "cancel-during", "cancelled"} {
 				sc = append(sc, restScenario(restSpec{Acts: q, End: end, Parent: p}))
@@ -629,6 +636,6 @@ func main() {
 			sc = append(sc, confScenario(g, rt))
 		}
 	}
-	vx.Main(cfg, r, sc, vx.Bounds{P: 2, T: 1}, vx.Bounds{P: 3, T: 2},
-		"every interleaving (preemption bound / timer-deviation bound per scenario in the evidence) of a handler script with the expiry of the deadline on the virtual clock and client cancellation, for all scripts of <= 2 (3 thorough) header/status/body actions x 4 endings on the REST TimeoutHandler, all work behaviours x parent deadlines on the zRPC server interceptor and fx.DoWithTimeout, all default x per-call x incoming-deadline combinations of the zRPC client interceptor and all global x per-route REST timeout settings; distinct/non-trivial by (scenario, what the caller observed: full result, timeout result, re-raised panic)")
+	vx.Main(cfg, r, sc, vx.Bounds{P: 3, T: 1}, vx.Bounds{P: 4, T: 2},
+		"every interleaving (preemption bound / timer-deviation bound per scenario in the evidence) of a handler script with the expiry of the deadline on the virtual clock and client cancellation, for all scripts of <= 3 (4 thorough) header/status/body actions x 4 endings on the REST TimeoutHandler, all work behaviours x parent deadlines on the zRPC server interceptor and fx.DoWithTimeout, all default x per-call x incoming-deadline combinations of the zRPC client interceptor and all global x per-route REST timeout settings; distinct/non-trivial by (scenario, what the caller observed: full result, timeout result, re-raised panic)")
 }
